@@ -547,6 +547,7 @@ func (l *leader) changeConfig(config Config) {
 			repl.status.removed = true
 			close(repl.stopCh)
 			delete(l.repls, id)
+			l.stopped = append(l.stopped, repl) // it may still read the log
 		}
 	}
 
